@@ -136,8 +136,10 @@ def run(ctx):
     if ok:
         body = flatten(L.layout(crets[0][0][2][-1]))
         dp = ct.params[1]
+        nm_fn = prog.funcs.get(f"{BASE}._next_message_id")      # (a refactoring may have inlined the id producer into tobytes)
         tail = len(body) == 3 and isinstance(body[0], Opaque) and body[0].label == f"param:{dp}" and isinstance(body[1], Byte) \
-            and call_is(strip(body[1].term), f"{BASE}._next_message_id") and isinstance(body[2], Byte) and call_is(strip(body[2].term), "msmart.crc8.calculate")
+            and (call_is(strip(body[1].term), f"{BASE}._next_message_id") or nm_fn is None) and isinstance(body[2], Byte) and call_is(strip(body[2].term), "msmart.crc8.calculate")
+        inline_id_term = strip(body[1].term) if (tail and nm_fn is None) else None
         if tail:
             cov = flatten(L.layout(strip(body[2].term)[2][0]))
             tail = [s.key() for s in cov] == [s.key() for s in body[:2]]
@@ -145,15 +147,23 @@ def run(ctx):
                construct="body tail", detail={"body": show_layout(body)[:300]}, fail=f"body layout is {show_layout(body)[:200]}")
         n_id = [n for n in ast.walk(ct.node) if isinstance(n, ast.Call) and isinstance(n.func, ast.Attribute) and n.func.attr == "_next_message_id"]
         in_loop = any(isinstance(x, (ast.For, ast.While)) for x in ast.walk(ct.node))
+        if nm_fn is None:
+            n_id = [n for n in ast.walk(ct.node) if isinstance(n, (ast.AugAssign, ast.Assign)) and any(isinstance(x, ast.Attribute) and x.attr == "_message_id" and isinstance(x.ctx, ast.Store)
+                                                                                                    for x in ast.walk(n))]
         ctx.ob("C12.b", f"{BASE}.tobytes", len(n_id) == 1 and not in_loop, "exactly one _next_message_id() per emitted command",
                func=f"{BASE}.tobytes", file=ct.module.rel, construct="_next_message_id() calls",
                fail=f"{len(n_id)} _next_message_id() calls per tobytes: ids do not advance by one per command")
     # ---------------------------------------------------------------- C12.d message id
-    nm = ctx.fn(f"{BASE}._next_message_id")
-    ns = summarize(prog, nm)
-    for _pc, t, node, rst in ns.returns:
-        if node is None:
-            continue
+    if prog.funcs.get(f"{BASE}._next_message_id") is not None:
+        nm = ctx.fn(f"{BASE}._next_message_id")
+        id_results = [(t, node, rst) for _pc, t, node, rst in summarize(prog, nm).returns if node is not None]
+    else:
+        # inlined: the id byte of the body and the counter store both live in Command.tobytes
+        nm = ct
+        id_results = [(inline_id_term, node, rst) for _pc, _t, node, rst in cts.returns if node is not None and ok and inline_id_term is not None]
+        if not id_results:
+            raise AnalysisError(f"{BASE}: no message id producer found (neither _next_message_id nor an inline counter in tobytes)")
+    for t, node, rst in id_results:
         cnt_key = [k for k in rst.env if k.endswith("._message_id")]
         ok = False
         if cnt_key:
